@@ -4,7 +4,8 @@
    bookkeeping clauses of the property, proved of that semantics for every program. *)
 From MJ Require Import Common.Base Lang.Syntax Lang.Meta Lang.Interp C03.Proofs.
 From MJ Require Import C04.Model L2.Instr L2.Compile L2.Vm L2.Simulation.
-From MJ Require Import C03.L2Pos C03.L2Base C03.L2Inv C03.L2Expr C03.L2Stmt C03.L2Wf C03.L2Proofs.
+From MJ Require Import C04.Spec.
+From MJ Require Import C03.L2Pos C03.L2Base C03.L2Inv C03.L2Expr C03.L2Stmt C03.L2Wf C03.L2Proofs C03.L2Err.
 
 (* loop.index, index0, revindex, revindex0, first, last and length describe the position [i] in a
    sequence of length [n] actually iterated *)
@@ -182,8 +183,8 @@ Proof. exact compile_len_indep. Qed.
    2^127 - 1 kept items.  Every construct of the Lang syntax is covered (no side condition beyond
    what the parser guarantees).  What the theorem does NOT say:
      * the failing direction: it is a forward simulation of successful runs; that an error of the
-       interpreter is the same error of the VM is proved for ... (see compile_expr_error below, if
-       present) and otherwise observed by the three-way agreement of the check only;
+       interpreter is the same error of the VM is proved for expressions without calls
+       (compile_expr_error below) and otherwise observed by the three-way agreement of the check only;
      * `loop(...)` recursion and everything else outside the Lang syntax (tuples, maps, slices, method
        calls, blocks, includes ...): correspondence of the check only. *)
 Theorem compile_correct : forall c fuel body s,
@@ -192,6 +193,40 @@ Theorem compile_correct : forall c fuel body s,
   (exists n, run_template c n (compile_template body) = Ok s) \/
   (exists σo, star c (compile_template body) (init_vm c) σo /\ overflow (compile_template body) σo).
 Proof. exact template_correct. Qed.
+
+(* The failing direction, expressions without calls ([pure], C04/Spec.v): if the interpreter's
+   evaluation of e ends in the error kind k - invalid operand kinds, division by zero, overflow,
+   undefined under a strict mode, unknown filter / test, a failing filter ... -, the VM started at the
+   first instruction of e's code runs into a step that fails with the SAME kind k (after evaluating
+   exactly the operands the interpreter evaluated successfully before).  A folded constant never
+   fails at run time (folded_constant_never_fails: what C04's fold_defers_errors says for fuel >=
+   depth, here for every fuel). *)
+Theorem folded_constant_never_fails : forall c esc fuel e v0, as_const e = Some v0 ->
+  forall s k, eval c fuel esc s e = Err k -> False.
+Proof. exact fold_noerr_all. Qed.
+
+Theorem compile_expr_error : forall c C, cfg_ok C c -> wf_code C -> forall fuel esc e, l2_expr e = true -> pure e = true ->
+  forall s k, eval c fuel esc s e = Err k -> Inv C s ->
+  forall base stk escs caps its calls, code_at C base (compile_expr e base) ->
+  (exists σ', star c C (mkVm base stk s esc escs caps its calls) σ' /\ step c C σ' = Err k)
+  \/ (exists σo, star c C (mkVm base stk s esc escs caps its calls) σo /\ overflow C σo).
+Proof.
+  intros c C Hc Hw fuel esc e Hl Hp s k He Hi base stk escs caps its calls Hcode.
+  destruct (err_expr_all c C Hc Hw fuel esc e Hl Hp s k He Hi base stk escs caps its calls Hcode) as (σ' & S & H).
+  destruct (starO_inv _ _ _ _ S) as [S1|(o & S1 & O)]; [|right; eauto].
+  destruct H as [H|H]; [left|right]; eauto.
+Qed.
+
+(* non-vacuity of the error theorem: 1 // (n - n) with n from the context fails with InvalidOperation in
+   the interpreter, and the VM on the compiled code stops with the same kind *)
+Example l2_error_witness :
+  let n := 100 in
+  let e := EBin OFloorDiv (EConst (LInt 1)) (EBin OSub (EVar n) (EVar n)) in
+  let cfg := mkCfg Lenient [(n, VInt 3)] false in
+  l2_expr e = true /\ pure e = true /\ as_const e = None /\
+  eval cfg 5 false (init_state) e = Err E_InvalidOperation /\
+  run_template cfg 100 (compile_template [SEmit e]) = Err E_InvalidOperation.
+Proof. vm_compute. repeat split. Qed.
 
 (* non-vacuity: a program with every statement constructor (chained comparison with a variable,
    short-circuit operators, if-expression without else, filters, tests, subscripts, if / elif / else,
@@ -258,3 +293,5 @@ Print Assumptions compile_stmts_correct.
 Print Assumptions overflow_is_an_error.
 Print Assumptions code_length_independent_of_break_target.
 Print Assumptions compile_correct.
+Print Assumptions folded_constant_never_fails.
+Print Assumptions compile_expr_error.
